@@ -304,6 +304,7 @@ func checkC01(c *Ctx) {
 	c.checkRemovalOrder()
 	c.checkRehashDecision()
 	c.checkAdapterSeqId()
+	c.checkSeqReportedBeforeReentry()
 }
 
 func posOf(c *Ctx, in ssa.Instruction) string {
